@@ -26,6 +26,21 @@ CLAIMS = {
   text="Coq theorem C04_all (instance of the generic invariant theorem Inv.m_invariant, proved for every grammar incl. @memoize/@leftrec, any decision-point configuration of record_error/arity tables, arbitrary stateful hooks whose extern functions return a boundary length): on valid UTF-8 input the model never reaches the runtime's panic sites (index, advance overrun, non-boundary advance = the cfg(peginator_verif) assertion), every state is anchored at a char boundary of the input with valid prefix and suffix, every reported error position is such a boundary (C04_boundary, C04_errpos); C04_guard / C04_guard_refuted: the compile-time ASCII guard of i-literals is present and load-bearing. The nine unchecked advance call sites are modelled one-to-one in Terminals.v and proved in TerminalsOk.v. Partial: stack exhaustion and the memory safety of get_unchecked itself are runtime facts; the theorem proves the precondition the unsafe block relies on.",
   note=TB + "Hook on in every correspondence run (RUSTFLAGS --cfg peginator_verif). `slice_until` (safe slicing) is modelled as total; its offsets are anchored states' offsets, hence boundaries.",
   technique="Coq generic invariant theorem instantiated with UTF-8 anchoring + byte-level proofs of all matchers + differential runs with the boundary assertion"),
+ "C05": dict(
+  category="proof",
+  text="Coq (for every grammar, arbitrary stateful hooks): C05_hit (a call of a memoized rule that finds an entry returns exactly the stored result and touches neither cache nor user state), C05_miss / C05_stores_what_it_returns (a miss returns the body's result and stores that same result), C05_fresh (every top-level parse starts from the empty cache, so nothing carries over between calls), C05_unmarked_reference (the grammar without markers is read as the PEG specification, by the simulation). Partial: the whole-grammar theorem `memoized M = unmarked M` is not yet proved; that step is decided by the oracle: each generated grammar with @memoize on a random subset of rules vs the same text with the markers removed — same acceptance and tree on every shared input, and identical results when the parses are re-run in reverse order in one process.",
+  note=TB + "Hooks are assumed deterministic functions of (input rest, user state); user-state effects of memoized bodies that are skipped on a hit are a documented behaviour, excluded by generating memo twins without user context.",
+  technique="Coq wrapper-level theorems over the model for all grammars + metamorphic marked/unmarked differential runs + model correspondence"),
+ "C06": dict(
+  category="proof",
+  text="Coq (every grammar, stateful hooks): C06_entry_after_return (after a memoized call returned Ok or Err the entry exists, because the wrapper is closed around early exits — fact memo_closed regenerated from rule.rs), C06_no_evaluation_with_entry (instance of the generic invariant: entries are never removed and every body evaluation logged during any evaluation is for a key without entry at its start), C06_hit_evaluates_nothing, C06_refuted_unwrapped (with the wrapper open the failing result is not stored: the pre-fix behaviour is refuted by a witness). Hence two evaluations of one (rule, offset) can only be nested (re-entrance), which the known finding c06:reentrant-through-leftrec exhibits on the real code. Oracle: per-(rule, offset) body evaluations counted from the implementation's own trace and by an extern probe at the start of memoized bodies; the model's ghost evaluation log must equal the count seen in the implementation.",
+  note=TB + "Partial: absence of re-entrance for grammars whose memoized rules are not on a left-recursive cycle is not a theorem.",
+  technique="Coq invariant proof (cache monotone, evaluations only on a miss) + trace/probe counting on the generated parsers + model correspondence"),
+ "C07": dict(
+  category="proof",
+  text="Coq: C07_grow (the loop's defining equation as generated), C07_bound (with the strict progress test `is_further_than = >`, fact further_gt regenerated from state.rs, and body evaluations that return, the loop returns after at most input-length+3 turns: no fuel exhaustion), C07_fuel_monotone (a result obtained with some fuel is obtained with any larger fuel: results do not depend on the recursion bound), leftrec_closed fact (failing seed is stored / sentinel never escapes, shared with C10). Partial: the closed form `b x*` for rules of the shape A = A x | b is not yet a theorem; decided by the oracle: left-nesting of every left-recursive node, the exact number of growth steps on the directed corpus grammar, watchdog on every parse, and full trace correspondence (loop turns, cache hits) with the model.",
+  note=TB,
+  technique="Coq termination/monotonicity proofs of the grow loop + differential correspondence incl. loop-turn traces + reference oracle"),
  "C08": dict(
   category="proof",
   text="The specification S skips whitespace exactly at the documented points (before every field/rule reference, literal, range and $ of a skipping rule; included bodies under the includer's flag; callee rules under their own flag; the grammar's Whitespace rule shadowing the built-in). Coq: C08_points (M agrees with S on every consumed byte, by the simulation), C08_noskip, C08_callee, C08_builtin / C08_ws_set / C08_longest (the built-in skipper consumes the longest prefix over exactly the five ASCII whitespace bytes, proved over UTF-8 bytes). Oracle: implementation vs extracted S on inputs with whitespace and near misses (U+000B, U+00A0, U+2003) incl. user-defined Whitespace.",
